@@ -121,7 +121,45 @@ FailsTimeRoundTrip(e) ==
   \o Chk(e.out # "ok" \/ (e.back.b = e.t.b /\ e.back.off = e.t.off), "format then parse is not the identity (instant or offset)")
   \o (LET d == Dec(Prim("string"), e.bytes, 1) IN Chk(d.ok /\ SameCivil(ParseRFC3339(d.d.b), e.t), "written text does not denote the time"))
 
+\* ------------------------------- C05 -----------------------------------
+\* (schema type x Go kind): either the build failed, or every decode stayed inside the field and left a value of
+\* the field's own type there. e.target is struct{Pre; F; Post; Sib}; field 2 is the destination.
+FailsBuild(e) ==
+  IF e.buildpanic # "" THEN <<"codec construction panicked: " \o e.buildpanic>>
+  ELSE IF ~e.built THEN <<>>
+  ELSE LET fs == e.schema.c[1].c[1]
+           ft == e.target.c[2].c[1]
+           bad(cs) == LET r == Dec(fs, cs.bytes, 1) IN
+                      IF cs.rout = "panic" THEN "decode panicked"
+                      ELSE IF ~cs.canary THEN "bytes outside the destination field were modified"
+                      ELSE IF ~BoolsValid(cs.value) THEN "a bool field holds a byte that is neither 0 nor 1"
+                      ELSE IF ~r.ok THEN ""                                   \* malformed input: only the above is demanded here
+                      ELSE IF ~Fits(fs, r.d, ft) THEN (IF cs.rout = "err" THEN "" ELSE "a value outside the destination's width was accepted")
+                      ELSE IF cs.rout # "ok" THEN ""                          \* refusing an input is always sound; whether it should have been accepted is C03's business
+                      ELSE IF cs.damaged THEN ""                              \* a damaged encoding that still decodes: content is not judged here (lossy double -> float32)
+                      ELSE IF ~Rep(fs, r.d, cs.value, FALSE, "r") THEN "the destination does not hold the datum as a value of its own type (the pair should have been rejected at build time)"
+                      ELSE IF cs.left # Len(cs.bytes) + 2 - (r.pos - 1) THEN "decode consumed the wrong number of bytes"
+                      ELSE ""
+           whys == {bad(e.cases[i]) : i \in 1..Len(e.cases)} \ {""}
+       IN IF whys = {} THEN <<>> ELSE <<CHOOSE w \in whys : TRUE>>
+
+\* ------------------------------- C11 -----------------------------------
+\* values projected inside the callback after a forced collection + heap churn, and again after the whole
+\* read and further collections, must still be what was written
+FailsGC(e) ==
+  IF e.panic # "" THEN <<"panic while decoding under garbage collection: " \o e.panic>>
+  ELSE IF e.err # "" THEN <<"decode failed under garbage collection: " \o e.err>>
+  ELSE Chk(Len(e.delivered) = Len(e.inputs) /\ FirstDiff(e.inputs, e.delivered, 1) = 0, "a decoded value was damaged by a collection during decoding / in the callback")
+       \o Chk(Len(e.after) = Len(e.inputs) /\ FirstDiff(e.inputs, e.after, 1) = 0, "a retained decoded value was damaged by collections after the read")
+FailsGCWrite(e) ==
+  LET r == Dec(e.schema, e.bytes, 1) IN
+  Chk(r.ok /\ r.pos = Len(e.bytes) + 1 /\ Rep(e.schema, r.d, e.value, FALSE, "w"), "encoding produced while collections ran is not the encoding of the value")
+
 Fails(e) == CASE e.op = "vec_read" -> FailsVec(e) \o FailsLefts(e)
+              [] e.op = "gc_roundtrip" -> FailsGC(e)
+              [] e.op = "gc_write" -> FailsGCWrite(e)
+              [] e.op = "gc_crash" -> <<"the process crashed while decoding / encoding under garbage collection (case open: " \o e.open \o ")">>
+              [] e.op = "build_decode" -> FailsBuild(e)
               [] e.op = "time_parse" -> FailsTimeParse(e)
               [] e.op = "time_roundtrip" -> FailsTimeRoundTrip(e)
               [] e.op = "cs_roundtrip" -> FailsCS(e)
